@@ -599,9 +599,7 @@ func gapJobs(env *replicaEnv, scratch string, add func(Mut, func(*restoreJob)), 
 		hasSnap = hasSnap || f.Level == 9
 		maxAll = max(maxAll, f.Max)
 	}
-	if !hasSnap {
-		return nil
-	}
+	_ = hasSnap // the stream runs on every replica (snapshot-bearing ones are where an unbridgeable gap can hide)
 	var names []string
 	for _, f := range files {
 		names = append(names, fmt.Sprintf("L%d:%d-%d", f.Level, f.Min, f.Max))
@@ -615,7 +613,7 @@ func gapJobs(env *replicaEnv, scratch string, add func(Mut, func(*restoreJob)), 
 		}
 		ref[t] = b
 	}
-	var sets [][]rfile
+	sets := [][]rfile{nil} // the undamaged replica first: every TXID target, including beyond the newest
 	for _, f := range files {
 		sets = append(sets, []rfile{f})
 		if f.Level == 0 {
@@ -669,16 +667,32 @@ func gapJobs(env *replicaEnv, scratch string, add func(Mut, func(*restoreJob)), 
 			mk(Mut{}, reach, "")
 			res.Count("restore/gap-bridged-or-tail")
 		}
-		// TXID targets: the newest TXID present (beyond the gap, if any) and the newest reachable one
-		for _, T := range []int{maxRemain, reach} {
-			if T == 0 {
-				continue
+		// TXID targets: the newest TXID present (beyond the gap, if any), the newest reachable one, the TXIDs
+		// carried by the deleted files themselves, one and two beyond the newest present, and — on the
+		// undamaged replica — every TXID.  Success only if a chain ends EXACTLY at the target.
+		tset := map[int]bool{maxRemain: true, reach: true, maxRemain + 1: true, maxRemain + 2: true}
+		for _, d := range del {
+			tset[d.Max] = true
+		}
+		if len(del) == 0 {
+			for t := 1; t <= maxAll; t++ {
+				tset[t] = true
 			}
+		}
+		var targets []int
+		for t := range tset {
+			if t > 0 {
+				targets = append(targets, t)
+			}
+		}
+		sort.Ints(targets)
+		for _, T := range targets {
 			ends := reachSet(remain, func(f rfile) bool { return f.Max <= T })
 			if ends[T] {
 				mk(Mut{TXID: uint64(T)}, T, "")
 			} else {
-				mk(Mut{TXID: uint64(T)}, 0, fmt.Sprintf("no contiguous chain ends at the requested TXID %d", T))
+				mk(Mut{TXID: uint64(T)}, 0, fmt.Sprintf("no contiguous chain ends exactly at the requested TXID %d (furthest reachable not beyond it: %d)", T, maxKey(ends)))
+				res.Count("restore/txid-target-unreachable")
 			}
 		}
 		// timestamp just after the newest remaining file
